@@ -71,11 +71,14 @@ type Gen struct {
 	variant  string // specialization suffix of the function under verification
 	allocs   map[string]allocType
 	preds    map[string]*typePredT
+	topCt    *Contract // contract of the function under verification
+	dynCount, dynQueries int
 }
 
 type closureInfo struct {
 	fn       *ssa.Function
 	bindings []string
+	id       int
 }
 
 func NewGen(eng *Engine, top *ssa.Function) *Gen {
@@ -560,6 +563,27 @@ type Act struct {
 	preEnv  map[ssa.Value]string
 	curReach string
 	firedCuts map[*Cut]bool
+	unrollN  int                       // loops of this (inlined) function are unrolled this many times instead of being cut by invariants
+	unr      *unrollCtx                // the loop being unrolled right now
+	skip     map[*ssa.BasicBlock]bool  // blocks already executed by an unrolling
+}
+
+// unrollCtx: bookkeeping of one loop while it is unrolled (DESIGN 13.6). Back edges and exit edges of the current iteration are
+// recorded instead of being cut / merged directly.
+type unrollCtx struct {
+	header *ssa.BasicBlock
+	in     map[*ssa.BasicBlock]bool
+	backs  []unrEdge
+	exits  map[[2]int][]unrEdge
+	exitOrder [][2]int
+	curIt  int
+}
+
+type unrEdge struct {
+	from *ssa.BasicBlock
+	cond string
+	st   *State
+	it   int
 }
 
 func (a *Act) nm(base string) string { return a.prefix + base }
@@ -817,6 +841,9 @@ func (a *Act) run(args []string, st0 *State, reach0 string) {
 	a.computeLoops()
 	order := topoOrder(fn)
 	for _, b := range order {
+		if a.skip[b] {
+			continue
+		}
 		var ins []edgeIn
 		var backs []*ssa.BasicBlock
 		for _, p := range b.Preds {
@@ -852,6 +879,10 @@ func (a *Act) run(args []string, st0 *State, reach0 string) {
 		a.curReach = reach
 		a.curBlk = b
 		isHeader := len(backs) > 0
+		if isHeader && a.unrollN > 0 {
+			a.unrollLoop(b, ins, st, reach, order)
+			continue
+		}
 		if isHeader {
 			st = a.loopHead(b, ins, backs, st, reach)
 		} else {
@@ -873,6 +904,252 @@ func (a *Act) run(args []string, st0 *State, reach0 string) {
 			}
 		}
 		a.stOut[b] = st
+	}
+}
+
+// unrollLoop executes the natural loop with header h a.unrollN times in place: iteration j+1 starts from the states and
+// values on the back edges of iteration j; exits of all iterations are merged for the code after the loop; that no
+// further iteration is possible after the last one is an obligation (unwinding assertion), so the result is complete.
+func (a *Act) unrollLoop(h *ssa.BasicBlock, ins []edgeIn, st0 *State, reach0 string, order []*ssa.BasicBlock) {
+	g := a.g
+	u := &unrollCtx{header: h, in: map[*ssa.BasicBlock]bool{}, exits: map[[2]int][]unrEdge{}}
+	var body []*ssa.BasicBlock
+	for _, b := range order {
+		for _, hh := range a.loopOf[b] {
+			if hh == h {
+				u.in[b] = true
+				body = append(body, b)
+				break
+			}
+		}
+	}
+	if a.skip == nil {
+		a.skip = map[*ssa.BasicBlock]bool{}
+	}
+	for _, b := range body {
+		a.skip[b] = true
+		for _, hh := range a.loopOf[b] {
+			if hh != h && u.in[hh] {
+				panic(fmt.Sprintf("unroll: nested loop inside unrolled loop of %s", shortFn(a.fn)))
+			}
+		}
+	}
+	saved := a.unr
+	a.unr = u
+	defer func() { a.unr = saved }()
+	lname := fmt.Sprintf("%sloop%d", a.path, a.loopIndex(h))
+	// values defined in the loop, per iteration (for uses after the loop)
+	type snap struct {
+		env map[ssa.Value]string
+		tup map[ssa.Value][]string
+	}
+	var snaps []snap
+	var exitAny []string // per iteration: some exit edge of that iteration is taken
+	var phiNext map[*ssa.Phi]string
+	for it := 0; it < a.unrollN; it++ {
+		// forget the forward edges of the previous iteration
+		for k := range a.edge {
+			if u.in[a.fn.Blocks[k[0]]] {
+				delete(a.edge, k)
+			}
+		}
+		prevBacks := u.backs
+		u.backs = nil
+		u.curIt = it
+		for _, b := range body {
+			var st *State
+			var reach string
+			var bins []edgeIn
+			if b == h {
+				if it == 0 {
+					st, reach = st0.clone(), reach0
+					for _, instr := range b.Instrs {
+						if phi, ok := instr.(*ssa.Phi); ok {
+							a.env[phi] = a.phiTerm(phi, ins)
+						}
+					}
+				} else {
+					if len(prevBacks) == 0 {
+						break
+					}
+					var cs []string
+					var sts []*State
+					for _, e := range prevBacks {
+						cs = append(cs, e.cond)
+						sts = append(sts, e.st)
+					}
+					reach = cs[0]
+					if len(cs) > 1 {
+						reach = g.def(a.nm(fmt.Sprintf("unr%d_reach", it)), "Bool", "(or "+strings.Join(cs, " ")+")")
+					}
+					st = g.mergeStateList(sts, cs)
+					for phi, t := range phiNext {
+						a.env[phi] = t
+					}
+				}
+			} else {
+				for _, p := range b.Preds {
+					if c, ok := a.edge[[2]int{p.Index, b.Index}]; ok {
+						bins = append(bins, edgeIn{p, c})
+					}
+				}
+				if len(bins) == 0 {
+					continue
+				}
+				var cs []string
+				for _, e := range bins {
+					cs = append(cs, e.cond)
+				}
+				reach = cs[0]
+				if len(cs) > 1 {
+					reach = g.def(a.nm(fmt.Sprintf("reach_b%d", b.Index)), "Bool", "(or "+strings.Join(cs, " ")+")")
+				}
+				st = a.mergeStates(bins)
+				for _, instr := range b.Instrs {
+					phi, ok := instr.(*ssa.Phi)
+					if !ok {
+						break
+					}
+					a.env[phi] = a.phiTerm(phi, bins)
+				}
+			}
+			a.reach[b] = reach
+			a.curReach = reach
+			a.curBlk = b
+			for _, instr := range b.Instrs {
+				if _, ok := instr.(*ssa.Phi); ok {
+					continue
+				}
+				a.exec(instr, st, reach, b)
+			}
+			a.stOut[b] = st
+		}
+		if it > 0 && len(prevBacks) == 0 {
+			break
+		}
+		// header phis of the next iteration: parallel assignment from the back edges of this one
+		phiNext = map[*ssa.Phi]string{}
+		for _, instr := range h.Instrs {
+			phi, ok := instr.(*ssa.Phi)
+			if !ok {
+				break
+			}
+			term := ""
+			for i := len(u.backs) - 1; i >= 0; i-- {
+				e := u.backs[i]
+				var v string
+				for j, p := range h.Preds {
+					if p == e.from {
+						v = a.val(phi.Edges[j])
+					}
+				}
+				if term == "" {
+					term = v
+				} else {
+					term = fmt.Sprintf("(ite %s %s %s)", e.cond, v, term)
+				}
+			}
+			if term != "" {
+				phiNext[phi] = g.def(a.nm(phi.Name()), g.sortOf(phi.Type()), term)
+			}
+		}
+		// snapshot of the values defined in the loop
+		sn := snap{env: map[ssa.Value]string{}, tup: map[ssa.Value][]string{}}
+		for _, b := range body {
+			for _, instr := range b.Instrs {
+				if v, ok := instr.(ssa.Value); ok {
+					if t, bound := a.env[v]; bound {
+						sn.env[v] = t
+					}
+					if t, bound := a.tuples[v]; bound {
+						sn.tup[v] = t
+					}
+				}
+			}
+		}
+		snaps = append(snaps, sn)
+		var ex []string
+		for _, k := range u.exitOrder {
+			for _, e := range u.exits[k] {
+				if e.it == it {
+					ex = append(ex, e.cond)
+				}
+			}
+		}
+		if len(ex) == 0 {
+			exitAny = append(exitAny, "false")
+		} else {
+			exitAny = append(exitAny, g.def(a.nm(fmt.Sprintf("unr%d_exit", it)), "Bool", "(or "+strings.Join(ex, " ")+" false)"))
+		}
+	}
+	// unwinding assertion: no further iteration
+	for _, e := range u.backs {
+		g.oblige("unwind", lname, e.cond, "false", a.pos(loopPos(h)), fmt.Sprintf("the loop is left after at most %d iterations (it is unrolled %d times)", a.unrollN, a.unrollN))
+		g.assumeIf(e.cond, "false")
+	}
+	// exits: merged over the iterations
+	for _, k := range u.exitOrder {
+		es := u.exits[k]
+		var cs []string
+		var sts []*State
+		for _, e := range es {
+			cs = append(cs, e.cond)
+			sts = append(sts, e.st)
+		}
+		c := cs[0]
+		if len(cs) > 1 {
+			c = g.def(a.nm(fmt.Sprintf("unr_exit_%d_%d", k[0], k[1])), "Bool", "(or "+strings.Join(cs, " ")+")")
+		}
+		a.edge[k] = c
+		a.stOut[a.fn.Blocks[k[0]]] = g.mergeStateList(sts, cs)
+	}
+	// values defined in the loop and used after it: the value of the iteration in which the loop was left
+	if len(snaps) > 1 {
+		for _, b := range body {
+			for _, instr := range b.Instrs {
+				v, ok := instr.(ssa.Value)
+				if !ok || v.Referrers() == nil {
+					continue
+				}
+				usedOutside := false
+				for _, r := range *v.Referrers() {
+					if !u.in[r.Block()] {
+						usedOutside = true
+					}
+				}
+				if !usedOutside {
+					continue
+				}
+				if _, isTup := v.Type().(*types.Tuple); isTup {
+					last := snaps[len(snaps)-1].tup[v]
+					if last == nil {
+						continue
+					}
+					out := make([]string, len(last))
+					for i := range last {
+						term := last[i]
+						for j := len(snaps) - 2; j >= 0; j-- {
+							if t := snaps[j].tup[v]; t != nil {
+								term = fmt.Sprintf("(ite %s %s %s)", exitAny[j], t[i], term)
+							}
+						}
+						out[i] = term
+					}
+					a.tuples[v] = out
+					continue
+				}
+				term, bound := snaps[len(snaps)-1].env[v]
+				if !bound {
+					continue
+				}
+				for j := len(snaps) - 2; j >= 0; j-- {
+					if t, ok := snaps[j].env[v]; ok && t != term {
+						term = fmt.Sprintf("(ite %s %s %s)", exitAny[j], t, term)
+					}
+				}
+				a.env[v] = g.def(a.nm(v.Name()+"_after"), g.sortOf(v.Type()), term)
+			}
+		}
 	}
 }
 
